@@ -147,3 +147,28 @@ def class_fields(relpath, clsname):
                     out.append((b.target.id, kw))
             return st, out
     raise NotFound(f'{relpath}: class {clsname}')
+
+
+def class_info(relpath, clsname):
+    """(names of the functions defined directly in the class body, names of its base classes) from the current source"""
+    src, tree = module_ast(relpath)
+    for st in tree.body:
+        if isinstance(st, ast.ClassDef) and st.name == clsname:
+            meths = [x.name for x in st.body if isinstance(x, (ast.FunctionDef, ast.AsyncFunctionDef))]
+            bases = [b.id for b in st.bases if isinstance(b, ast.Name)]
+            return meths, bases
+    return [], []
+
+
+def module_imports(relpath):
+    """{local name: (module, attribute or None)} for the module-level import statements of the file"""
+    src, tree = module_ast(relpath)
+    out = {}
+    for st in tree.body:
+        if isinstance(st, ast.Import):
+            for a in st.names:
+                out[a.asname or a.name.split('.')[0]] = (a.name if a.asname else a.name.split('.')[0], None)
+        elif isinstance(st, ast.ImportFrom) and st.module and st.level == 0:
+            for a in st.names:
+                out[a.asname or a.name] = (st.module, a.name)
+    return out
